@@ -524,9 +524,9 @@ def r_split_abut(F, V):
         r_end = b.root_of_place(s["rv"]["op"]["p"])[0] if s["rv"]["k"] == "use" and s["rv"]["op"]["k"] in ("copy", "move") else None
         r_tail = b.root_of_place(tail_start["p"])[0] if tail_start["k"] in ("copy", "move") else None
         if r_end is None or r_end != r_tail:
-            # accept two separate but identical expressions next_ctrl.add(mid)
-            S_t = sources(b, tail_start)
-            same = S_end is not None and set(S_end.calls) == set(S_t.calls) and S_end.loads == S_t.loads
+            # accept two separate but identical expressions next_ctrl.add(mid) (local value numbering)
+            from cond import expr_key
+            same = s["rv"]["k"] == "use" and expr_key(b, s["rv"]["op"]) == expr_key(b, tail_start)
             if not same:
                 problems.append("the new end of the head and the start of the tail are not the same `next_ctrl + mid` value: elements between them are visited twice or never")
         # mid is a multiple of the group width
